@@ -130,7 +130,13 @@ func recoverFunc(runInfo *runInfoStruct) {
 
 func isNil(v reflect.Value) bool {
 	switch v.Kind() {
-	case reflect.Chan, reflect.Func, reflect.Interface, reflect.Map, reflect.Ptr, reflect.Slice:
+	case reflect.Interface:
+		if v.IsNil() {
+			return true
+		}
+		// a nil pointer, map, slice, ... held in an interface value is nil like in a variable
+		return isNil(v.Elem())
+	case reflect.Chan, reflect.Func, reflect.Map, reflect.Ptr, reflect.Slice:
 		// from reflect IsNil:
 		// Note that IsNil is not always equivalent to a regular comparison with nil in Go.
 		// For example, if v was created by calling ValueOf with an uninitialized interface variable i,
